@@ -48,6 +48,10 @@ def gen_cases(ctx, kind="full"):
                 case["ops"].append(["irqcfg", rng.randrange(2), rng.randrange(2), rng.randrange(2)])
             elif r < 0.47:
                 case["ops"].append(["ackpl", rng.randrange(6), rng.randrange(1, 33)])
+            elif r < 0.51:
+                # the retry configuration is changed after a transmission: what the radio counted
+                # for the LAST packet does not change with it
+                case["ops"].append(["arc", rng.choice([0, 0, 1, 2, 15])])
             else:
                 case["ops"].append(rng.choice([
                     ["update"], ["available"], ["pipe"], ["any"], ["tx_full"], ["irq"],
@@ -81,6 +85,7 @@ def _decode(st):
 def _run(ctx, case, rig, rd, rp, dut, peer, prefix, kind):
     node = rig.node
     prng = random.Random(case["seed"])
+    rng_arc = [case["seed"] & 1]
     mode = case["mode"]
     sl = case["static_len"]
     if kind == "full":
@@ -180,8 +185,22 @@ def _run(ctx, case, rig, rd, rp, dut, peer, prefix, kind):
                 peer.dynamic_payloads = True
             peer.listen = True
             continue
+        if name == "arc":
+            if rng_arc[0] % 2 and kind == "full":
+                dut.set_auto_retries(dut.ard, op[1])
+            else:
+                dut.arc = op[1]
+            rng_arc[0] += 1
+            if kind == "full":
+                ctx.clause("last_tx_arc")
+                r = dut.last_tx_arc
+                if r != rd.arc_cnt:
+                    viol("last_tx_arc", "last_tx_arc=%r after arc was set to %d, radio ARC_CNT=%d" % (r, op[1], rd.arc_cnt))
+                    return
+            continue
         if name == "tx":
             dut.listen = False
+            dut.arc = 3  # harness: the loss plans below assume three automatic retries
             dut.flush_tx()  # harness: queued write_only payloads would be sent first
             dut.open_tx_pipe(b"\xD1\x01\x02\x03\x04")  # pipe 0 is also a reading pipe here
             peer.flush_rx()
